@@ -331,9 +331,20 @@ c18_inst! {
 //   PATTERN 0: FINGERPRINT, PRIORITY        (36 bytes)
 //   PATTERN 1: PRIORITY, FINGERPRINT, unknown 0x7F02 (44 bytes)
 // ---------------------------------------------------------------------------------------------
+/// The message type is made concrete (Binding request, 0x0001) in the whole-decode queries: with symbolic
+/// type bits the header's "top two bits" error path stays feasible for the symbolic executor, its merge
+/// with the Ok path makes the header length field symbolic, and from there on nothing constant-folds any
+/// more: the attribute loop is unwound to the bound with every registered decoder and the whole drop
+/// glue in each iteration (2.3 M steps, 40 M clauses for a 20-byte message).  With a concrete type the
+/// same query has 20 k steps.  Method / class decoding is decided for all 16384 pairs by c02_message_type_bits.
+fn concrete_type(buf: &mut [u8]) {
+    buf[0] = 0x00;
+    buf[1] = 0x01;
+}
 fn c18c<const OPT: u8, const PATTERN: u8, const LL: usize>() {
     let mut buf: [u8; LL] = kani::any();
     put_header(&mut buf, (LL - 20) as u16);
+    concrete_type(&mut buf);
     let types: [u16; 3] = if PATTERN == 0 { [0x8028, 0x0024, 0] } else if PATTERN == 2 { [0x7f02, 0, 0] } else { [0x0024, 0x8028, 0x7f02] };
     let n = if PATTERN == 0 { 2 } else if PATTERN == 2 { 1 } else { 3 };
     let mut i = 0;
@@ -426,12 +437,13 @@ fn fp_validate_any(_this: &crate::attributes::stun::Fingerprint, _input: &[u8]) 
     }
 }
 fn input_text_empty(_buffer: &[u8], _attr_type: u16) -> Result<Vec<u8>, crate::StunError> {
-    Ok(Vec::new())
+    Ok(Vec::with_capacity(1))
 }
 fn c18v<const OPT: u8, const PATTERN: u8>() {
     const LL: usize = 36;
     let mut buf: [u8; LL] = kani::any();
     put_header(&mut buf, (LL - 20) as u16);
+    concrete_type(&mut buf);
     let types: [u16; 2] = if PATTERN == 0 { [0x8028, 0x0024] } else { [0x8028, 0x8028] };
     let mut i = 0;
     while i < 2 {
@@ -575,4 +587,54 @@ macro_rules! c18vu_inst {
 c18vu_inst! {
     c18_validate_unit_fingerprint = true;
     c18_validate_unit_priority = false;
+}
+
+// ---------------------------------------------------------------------------------------------
+// cost probes (not registered): pieces of MessageDecoder::decode on their own, to see where the
+// symbolic execution steps of the whole-decode queries go
+// ---------------------------------------------------------------------------------------------
+#[kani::proof]
+#[kani::unwind(6)]
+#[kani::stub(alloc::fmt::format, nofmt)]
+fn probe_raw_decode() {
+    let mut buf: [u8; 28] = kani::any();
+    put_header(&mut buf, 8);
+    let r = RawMessage::decode(&buf);
+    assert!(r.is_ok());
+    std::mem::forget(r);
+}
+#[kani::proof]
+#[kani::unwind(6)]
+#[kani::stub(alloc::fmt::format, nofmt)]
+#[kani::stub(<crate::types::TransactionId as std::default::Default>::default, tid_any)]
+fn probe_builder() {
+    let tid: [u8; 12] = kani::any();
+    let mt = MessageType::from(kani::any::<u16>());
+    let b = StunMessageBuilder::new(mt.method(), mt.class()).with_transaction_id(TransactionId::from(tid));
+    let m = b.build();
+    assert!(m.attributes().is_empty());
+    std::mem::forget(m);
+}
+#[kani::proof]
+#[kani::unwind(6)]
+#[kani::stub(alloc::fmt::format, nofmt)]
+fn probe_decoder_ctx() {
+    let dec = mk_decoder::<5>();
+    assert!(dec.get_context().is_some());
+    std::mem::forget(dec);
+}
+#[kani::proof]
+#[kani::unwind(6)]
+#[kani::stub(alloc::fmt::format, nofmt)]
+#[kani::stub(<crate::types::TransactionId as std::default::Default>::default, tid_any)]
+#[kani::stub(crate::registry::get_handler, registry_small)]
+#[kani::stub(crate::message::StunMessageBuilder::with_attribute, rec_with_attribute)]
+fn probe_decode_header_only() {
+    let mut buf: [u8; 20] = kani::any();
+    put_header(&mut buf, 0);
+    let dec = mk_decoder::<0>();
+    let r = dec.decode(&buf);
+    assert!(r.is_ok());
+    std::mem::forget(r);
+    std::mem::forget(dec);
 }
